@@ -141,6 +141,19 @@ def extract():
   emit(defs, "path_str_strips_leading_dot", "bool",
        g_bool(has(pstr, "path_str[1:] if path and isinstance(path[0], daglish.Attr) else path_str")),
        "printing._path_str drops the leading '.' of an attribute path")
+  # ---- diffing._apply_changes : phase order (C10)
+  df = parse("fiddle/_src/diffing.py")
+  ac = find_def(df, "_apply_changes")
+  loops = [n for n in ast.walk(ac) if isinstance(n, ast.For) and isinstance(n.iter, ast.Tuple)]
+  if len(loops) != 1:
+    raise AnchorError("_apply_changes: expected one loop over a tuple of operation types")
+  emit(defs, "apply_changes_phases", "list string",
+       "[" + "; ".join(coq_string(src(e)) for e in loops[0].iter.elts) + "]",
+       "diffing._apply_changes: the order in which operation types are applied")
+  emit(defs, "apply_changes_resolves_parents_first", "bool",
+       g_bool(has(src(ac), "path_to_value = daglish_legacy.collect_value_by_path(\n      structure, memoizable_only=True)")
+              and has(src(ac), "parent = path_to_value[diff_op.target[:-1]]")),
+       "diffing._apply_changes: parents are looked up in a path map computed before any change")
   return defs
 
 
